@@ -72,8 +72,17 @@ def encode(cfg, stmt, env, addr, zones):
             base = code if code is not None else (E.bvval(0), 0, False, 'big')
             if 'bytecode' in iod:
                 # the register code and the index operand's code form one field, register code first
-                isz = iod['bytecode']['size']
-                cv = (base[0] << E.bvval(isz)) | (T(env, iod['bytecode']['value']) & E.bvval((1 << isz) - 1))
+                ibc = iod['bytecode']
+                isz = ibc['size']
+                if iod['type'] == 'numeric_bytecode':
+                    iv = use['index_value']          # the index value itself is the code (two's complement in isz bits)
+                    cons.append(z3.And(iv >= T(env, ibc['min']), iv <= T(env, ibc['max'])))
+                    cons.append(O.in_field_range(iv, isz))
+                elif 'value_dict' in ibc:
+                    iv = _dict_value(env, ibc['value_dict'], {'key': use.get('index_key')}, use.get('index_value'), cons)
+                else:
+                    iv = T(env, ibc['value'])
+                cv = (base[0] << E.bvval(isz)) | (iv & E.bvval((1 << isz) - 1))
                 code = (cv, base[1] + isz, False, 'big')
             else:
                 code = base
